@@ -190,6 +190,10 @@ func handWrittenComponents(c *Ctx) {
 					if !deferred[cl] && fc.dominates(cl, r) {
 						before = true
 					}
+					// the render is handed the cleared context itself: x.Render(ClearChildren(ctx), w)
+					if ast.Unparen(r.Args[0]) == ast.Expr(cl) {
+						before = true
+					}
 				}
 				if !before {
 					okR = false
